@@ -15,39 +15,92 @@ R_DEFS = {
     "keep(l)": "strip(l) != '' and not strip(l).startswith('#')",
 }
 
+def _some_line_invalid(ex, bound):
+    """assumed of pathspec: from_lines raises only if one of the lines is no valid pattern on its own (Skolem witness)"""
+    from vfcore.theory import Int
+    lines = ex.as_vlist(bound["lines"], "str")
+    w = z3.FreshConst(Int, "badline")
+    valid = ex.th.uf("call__is_valid_pattern", ex.th.Str, z3.BoolSort())
+    return z3.And(0 <= w, w < ex.z(lines.length), z3.Not(valid(ex.z(ex.list_get(lines, w)))))
+
+
+def _compiles(ex):
+    return [e for e in ex.log if e[0] == "COMPILE"]
+
+
+def _returned_is_last_compile(ex):
+    """a spec that is returned is what pathspec made of the LAST line list handed to it: all rule lines, or -- only after
+    pathspec rejected those -- the rule lines that are valid patterns one by one"""
+    res = ex.envs[0]["result"]
+    cs = _compiles(ex)
+    if res is None:
+        return True
+    if not cs or len(cs) > 2:
+        return False
+    from vfcore.values import VOpt
+    if isinstance(res, VOpt):
+        return z3.And(z3.Not(res.is_none), ex.z(res.val) == ex.z(cs[-1][2]))
+    return ex.z(res) == ex.z(cs[-1][2])
+
+
+def _none_only_without_valid_rules(ex):
+    """None (for a readable file) only if there is no rule line, or pathspec rejected the rule lines and none of them is a
+    valid pattern on its own"""
+    res = ex.envs[0]["result"]
+    if res is not None:
+        return True
+    return len(_compiles(ex)) <= 1
+
+
 contract(Contract(
     target=M + ":_read_ignore_file",
-    props=["C18", "C17"],
+    props=["C18", "C17", "C12"],
     assumes=["Path.read_text returns the file's text or raises OSError / UnicodeDecodeError; str.splitlines is an uninterpreted "
-             "function of the text; pathspec.PathSpec.from_lines('gitignore', lines) is git's meaning of those lines (bounded layer of C18)"],
+             "function of the text; pathspec.PathSpec.from_lines('gitignore', lines) is git's meaning of those lines (bounded layer of C18) "
+             "or raises ValueError, which it does only if one of the lines is no valid pattern on its own (what _is_valid_pattern tests)"],
     params={"path": "ref:Path"},
-    types={"text": "str", "lines": "list[str]"},
+    types={"text": "str", "lines": "list[str]", "valid": "list[str]"},
     calls={"Path.read_text": Callee("uf", ret="str", sig=["self"], raises=("OSError", "UnicodeDecodeError")),
-           "pathspec.PathSpec.from_lines": Callee("effect", ret="ref:PathSpec", effect="COMPILE", sig=["style", "lines"])},
-    at_call={"pathspec.PathSpec.from_lines": {
-        "gitignore_syntax": "arg_style == 'gitignore'",
-        # every line handed to pathspec is a line of the file, verbatim and in file order ...
-        "lines_verbatim_in_order": "all(0 <= srcidx(arg_lines, k) and srcidx(arg_lines, k) < len(L()) and arg_lines[k] == L()[srcidx(arg_lines, k)]"
-                                   " and keep(L()[srcidx(arg_lines, k)]) and implies(k > 0, srcidx(arg_lines, k - 1) < srcidx(arg_lines, k))"
-                                   " for k in range(len(arg_lines)))",
-        # ... and every line that is neither blank nor a comment is handed over
-        "no_rule_dropped": "all(implies(keep(L()[j]), 0 <= keptat(arg_lines, j) and keptat(arg_lines, j) < len(arg_lines)"
-                           " and arg_lines[keptat(arg_lines, j)] == L()[j]) for j in range(len(L())))",
-    }},
+           "pathspec.PathSpec.from_lines": Callee("effect", ret="ref:PathSpec", effect="COMPILE", sig=["style", "lines"], raises=("ValueError",),
+                                                  raise_guard=_some_line_invalid),
+           "_is_valid_pattern": Callee("uf", ret="bool", sig=["line"])},
+    at_call={
+        "pathspec.PathSpec.from_lines": {"gitignore_syntax": "arg_style == 'gitignore'"},
+        "pathspec.PathSpec.from_lines#0": {
+            # every line handed to pathspec is a line of the file, verbatim and in file order ...
+            "lines_verbatim_in_order": "all(0 <= srcidx(arg_lines, k) and srcidx(arg_lines, k) < len(L()) and arg_lines[k] == L()[srcidx(arg_lines, k)]"
+                                       " and keep(L()[srcidx(arg_lines, k)]) and implies(k > 0, srcidx(arg_lines, k - 1) < srcidx(arg_lines, k))"
+                                       " for k in range(len(arg_lines)))",
+            # ... and every line that is neither blank nor a comment is handed over
+            "no_rule_dropped": "all(implies(keep(L()[j]), 0 <= keptat(arg_lines, j) and keptat(arg_lines, j) < len(arg_lines)"
+                               " and arg_lines[keptat(arg_lines, j)] == L()[j]) for j in range(len(L())))",
+        },
+        "pathspec.PathSpec.from_lines#1": {
+            # the second attempt (after pathspec rejected the rule lines): the same lines, verbatim and in order, minus exactly
+            # those that are no valid pattern on their own
+            "valid_lines_verbatim_in_order": "all(0 <= srcidx(arg_lines, k) and srcidx(arg_lines, k) < len(lines) and arg_lines[k] == lines[srcidx(arg_lines, k)]"
+                                             " and call('_is_valid_pattern', arg_lines[k]) and implies(k > 0, srcidx(arg_lines, k - 1) < srcidx(arg_lines, k))"
+                                             " for k in range(len(arg_lines)))",
+            "no_valid_rule_dropped": "all(implies(call('_is_valid_pattern', lines[j]), 0 <= keptat(arg_lines, j) and keptat(arg_lines, j) < len(arg_lines)"
+                                     " and arg_lines[keptat(arg_lines, j)] == lines[j]) for j in range(len(lines)))",
+        },
+    },
     defs=R_DEFS,
     ghost={"got_text": "False"},
     hooks=[("after", "assign:text", "got_text = True")],
+    raises=(),
     ensures={
-        "compiled_once_and_returned": "implies(not isnone(result), logcount('COMPILE') == 1 and val(result) == logres('COMPILE'))",
-        "none_means_not_compiled": "implies(isnone(result), logcount('COMPILE') == 0)",
-        # a readable file with at least one rule line always yields a spec (its rules are never silently dropped)
-        "rules_mean_spec": "implies(got_text and isnone(result), all(not keep(L()[j]) for j in range(len(L()))))",
+        "returned_is_last_compile": Clause(_returned_is_last_compile),
+        "none_only_without_valid_rules": Clause(_none_only_without_valid_rules),
+        # a readable file whose rule lines pathspec accepts always yields a spec (its rules are never silently dropped)
+        "rules_mean_spec": "implies(got_text and isnone(result) and logcount('COMPILE') == 0, all(not keep(L()[j]) for j in range(len(L()))))",
         "unreadable_is_none": "implies(not got_text, isnone(result))",
     },
     canaries=[
         ('line for line in text.splitlines() if line.strip() and not line.strip().startswith("#")',
          'line for line in text.splitlines() if line.strip() and not line.startswith("#")', None, ["lines_verbatim_in_order", "no_rule_dropped"]),
         ('    if not lines:\n        return None', '    if len(lines) < 2:\n        return None', None, ["rules_mean_spec"]),
+        ("        valid = [line for line in lines if _is_valid_pattern(line)]", "        valid = [line for line in lines[1:] if _is_valid_pattern(line)]", None, ["no_valid_rule_dropped", "valid_lines_verbatim"]),
     ],
 ))
 
